@@ -45,6 +45,8 @@ ASSUMPTIONS = [
     "the order in which make_patch finally sorts the commands is C08's subject: pipeline results are compared as "
     "sorted row lists, and the theorems hold for every permutation of the emitted commands",
     "vlan_diff is modelled with common.default_diff as a parameter (its items are taken from the real call)",
+    "a port that leaves its port-channel: cisco.iface.diff hides the member's own lines (the model is given the empty old "
+    "side, recorded finding F11d); nexus.iface.diff re-reads them (the model is given the old lines)",
     "cisco VLAN blocks (vlan N with children) are modelled and compared, the theorems cover leaf rows only; the "
     "iteration order of Python's int set in cisco/vlandb.py:37 is canonicalised (block-yield runs are sorted)",
 ]
@@ -370,7 +372,10 @@ def _gen_pipe(rng):
     trunk = mode == "swtrunk"      # globally "vlan none" is a row of another rule: the empty set has no line there
     old = lines_c(p, so, rnd_cuts(rng, len(items_c(so))), mode, trunk and rng.random() < 0.7)
     new = lines_c(p, sn, rnd_cuts(rng, len(items_c(sn))), mode, trunk and rng.random() < 0.7)
-    return dict(k="cp", hw=hw, cat=cat, scen=scen, old=old, new=new)
+    c = dict(k="cp", hw=hw, cat=cat, scen=scen, old=old, new=new)
+    if trunk and rng.random() < 0.3:
+        c["leave_lag"] = True       # the port leaves its port-channel in the same run
+    return c
 
 
 def _gen_lib(rng):
@@ -538,15 +543,28 @@ def _text(block, rows, noise):
     return "\n".join([block] + ["  " + r for r in noise + rows]) + "\n"
 
 
-def _pipeline(hwname, block, old_rows, new_rows, noise):
-    from annet.annlib import patching, tabparser
+class _Dev:
+    def __init__(self, hw):
+        self.hw = hw
+        self.hostname = "dev"
+        self.breed = "x"
+
+
+LAG_ROW = "channel-group 1 mode active"
+
+
+def _pipeline(hwname, block, old_rows, new_rows, noise, leave_lag=False, prefix=""):
+    """the production caller of device mode, `api._diff_and_patch` (no ACL), on the texts of the two configurations;
+    leave_lag: the port is a port-channel member in old only; the commands that do not mention the VLAN-list prefix
+    (`no channel-group`, settings the vendor logic re-sends for a port that left its port-channel) are not VLAN
+    commands and are left out of the result"""
+    from annet import api
+    from annet.annlib import tabparser
     hw, rb, fmt = _hw(hwname)
-    old = tabparser.parse_to_tree(_text(block, old_rows, noise), fmt.split)
+    old = tabparser.parse_to_tree(_text(block, old_rows, noise + ([LAG_ROW] if leave_lag else [])), fmt.split)
     new = tabparser.parse_to_tree(_text(block, new_rows, noise), fmt.split)
     try:
-        diff = patching.make_diff(old, new, rb, [])
-        pre = patching.make_pre(diff)
-        pt = patching.make_patch(pre, rb, hw, add_comments=False)
+        _d, pt = api._diff_and_patch(_Dev(hw), old, new, None, None, False)
     except ERRS as e:
         return _err(e)
     rows = []
@@ -556,7 +574,7 @@ def _pipeline(hwname, block, old_rows, new_rows, noise):
             if child:
                 rows.extend("  " + r for r, _ in child.items())
         elif row == block and child is not None:
-            rows.extend(r for r, _ in child.items())
+            rows.extend(r for r, _ in child.items() if not (leave_lag and prefix not in r))
         else:
             rows.append("?? " + row)
     return {"ok": rows}
@@ -577,6 +595,15 @@ def _impl_vdiff(case):
         out = vlandb.vlan_diff(old, new, diff_pre, (Op.AFFECTED,))
     except ERRS as e:
         return _err(e), base, list(new)
+    # the same pair through the production caller of device mode: the top-level commands of the patch
+    try:
+        from annet import api
+        _d, pt = api._diff_and_patch(_Dev(hw), mk(case["old"]), mk(case["new"]), None, None, False)
+        if len(_SEQ) > 20000:
+            _SEQ.clear()
+        _SEQ[_ckey(case) + "|patch"] = [r for r, _c in pt.items()]
+    except ERRS as e:
+        _SEQ[_ckey(case) + "|patch"] = ["raised " + type(e).__name__]
     return {"ok": [[it.op, it.row, bool(it.children)] for it in out]}, base, list(new)
 
 
@@ -605,7 +632,7 @@ def impl(case):
         return _remember(case, r["ok"]) if "ok" in r else r
     if k == "cp":
         (block, _p, _mode, noise) = C_SCEN[case["scen"]]
-        r = _pipeline(case["hw"], block, case["old"], case["new"], noise)
+        r = _pipeline(case["hw"], block, case["old"], case["new"], noise, bool(case.get("leave_lag")), _p)
         return _remember(case, [x.strip() for x in r["ok"]]) if "ok" in r else r
     if k == "coll":
         from annet.annlib import lib
@@ -658,7 +685,12 @@ def requests(case):
         return [dict(op="c11.h_pipe", mode=mode, rev=rev.format("1"), old=case["old"], new=case["new"])]
     if k == "cp":
         (_block, _p, mode, _noise) = C_SCEN[case["scen"]]
-        return [dict(op="c11.c_pipe", mode=mode, catalyst=case["cat"], old=case["old"], new=case["new"])]
+        old = case["old"]
+        if case.get("leave_lag") and "Nexus" not in case["hw"]:
+            # cisco.iface.diff (cisco/iface.py:5-10, 39-44) deletes the lines of a port-channel member from the side
+            # that has `channel-group` before the rows reach the VLAN logic: the logic sees an empty old side (F11d)
+            old = []
+        return [dict(op="c11.c_pipe", mode=mode, catalyst=case["cat"], old=old, new=case["new"])]
     if k == "coll":
         return [dict(op="c11.collapse", vlans=case["vlans"], sep=case["sep"], tiny=case["tiny"],
                      chunk_len=case["chunk_len"])]
@@ -858,7 +890,11 @@ def _check_cmds(case, vendor, mode, p, rows, sides, clear_cmds, tag):
     added = [r for r in case["new"] if r not in case["old"]]
     out = []
     if final != s_new:
-        if vendor == "huawei" and mode == "single" and acts == [("clear",)] and unchanged and not added:
+        if vendor == "cisco" and case.get("leave_lag") and "Nexus" not in case.get("hw", "") and final == (s_old | s_new) \
+                and all(a[0] in ("add", "set") for a in acts):
+            # F11d (by design of cisco.iface.diff): the lines of a port-channel MEMBER are hidden from both sides
+            sig = "cisco:swtrunk:port-leaves-port-channel:old-member-lines-hidden"
+        elif vendor == "huawei" and mode == "single" and acts == [("clear",)] and unchanged and not added:
             sig = "huawei:single:whole-key-undo-with-unchanged-lines"
         elif vendor == "huawei" and mode == "multi_all" and acts == [("clear",)] and unchanged and not added:
             sig = "huawei:multi_all:undo-all-with-unchanged-lines"
@@ -919,6 +955,18 @@ def oracle(case, r):
             if sset:
                 batch_new |= sset
         out = []
+        if _ckey(case) + "|patch" not in _SEQ:
+            _impl_vdiff(case)
+        for row in _SEQ.get(_ckey(case) + "|patch", []):
+            t = row.split()
+            if len(t) == 3 and t[:2] == ["undo", "vlan"] and t[2].isdigit() and int(t[2]) in batch_new:
+                out.append(dict(sig="huawei:device-mode:undo-vlan-although-in-new-batch",
+                                what="api._diff_and_patch emits `%s` although vlan %s is in a `vlan batch` line of the new "
+                                     "configuration: old %r new %r" % (row, t[2], case["old"], case["new"])))
+                break
+            if row.startswith("raised "):
+                out.append(dict(sig="huawei:device-mode:" + row.replace(" ", "-"), what="api._diff_and_patch %s on old %r new %r" % (
+                    row, case["old"], case["new"])))
         for op, row, _has in r["ok"]:
             t = row.split()
             if str(op).lower().endswith("removed") and len(t) == 2 and t[0] == "vlan" and t[1].isdigit() and int(t[1]) in batch_new:
@@ -974,6 +1022,13 @@ def stats(case, r):
     if k in ("hp", "cp"):
         lab.append("%s:scen=%s" % (k, case["scen"]))
         lab.append("hw=" + case["hw"])
+        lab.append("pipeline=api._diff_and_patch")
+        if case.get("leave_lag"):
+            lab.append("cp:port-leaves-its-port-channel")
+    if k == "vdiff":
+        removed = {r[0] for r in case["old"]} - {r[0] for r in case["new"]}
+        lab.append("vdiff:vlan-block-removed=%d" % any(x.split()[0] == "vlan" and len(x.split()) == 2 for x in removed))
+        lab.append("vdiff:unchanged-batch-line=%d" % any(r[0].startswith("vlan batch") and r in case["new"] for r in case["old"]))
     if k in ("hl", "cl", "hp", "cp"):
         lab.append("lines=%d->%d" % (min(len(case["old"]), 5), min(len(case["new"]), 5)))
         if "ok" in r:
